@@ -482,6 +482,16 @@ def _eval_call (repo, module, e, env, cls):
         r_ = {'list': list, 'tuple': tuple, 'set': set, 'sorted': sorted, 'str': str, 'int': int, 'hex': hex, 'oct': oct, 'bin': bin, 'chr': chr, 'ord': ord, 'bytes': bytes, 'abs': abs, 'min': min, 'max': max, 'sum': sum, 'reversed': lambda x: list(reversed(x))}[fn.id](args[0])
         return r_
       except Exception: raise _Unknown()
+    if fn.id in ('range', 'min', 'max', 'zip', 'enumerate', 'divmod', 'pow') and 1 <= len(args) <= 3 and not (fn.id in ('min', 'max') and len(args) == 1):
+      if any(a is OPAQUE for a in args): raise _Unknown()
+      try:
+        r_ = {'range': range, 'min': min, 'max': max, 'zip': zip, 'enumerate': enumerate, 'divmod': divmod, 'pow': pow}[fn.id](*args)
+        if fn.id in ('range', 'zip', 'enumerate'):
+          r_ = list(r_)
+          if len(r_) > 4096: raise _Unknown()
+        return r_
+      except _Unknown: raise
+      except Exception: raise _Unknown()
     if fn.id in ('all', 'any') and len(args) == 1:
       try: vals = list(args[0])
       except Exception: raise _Unknown()
@@ -745,11 +755,27 @@ def _assign_env (repo, module, st, env, cls):
       _kill(ne, nm); ne.exact[nm] = val
       return ne
     except Exception: pass
+  if isinstance(st, ast.Assign) and len(st.targets) == 1 and isinstance(st.targets[0], ast.Subscript) and not isinstance(st.targets[0].slice, ast.Slice):
+    # element store into a container whose value is known: update a copy, or forget the container
+    base = norm(st.targets[0].value)
+    cur = ne.exact.get(base)
+    if isinstance(cur, (list, dict)):
+      try:
+        k_ = eval_env2(repo, module, st.targets[0].slice, env, cls)
+        v_ = eval_env2(repo, module, st.value, env, cls)
+        if k_ is OPAQUE: raise _Unknown()
+        c2 = list(cur) if isinstance(cur, list) else dict(cur)
+        c2[k_] = v_
+        ne.exact[base] = c2
+      except Exception:
+        ne.exact.pop(base, None)
+    return ne
   # anything else: kill every name stored
   for t in (st.targets if isinstance(st, ast.Assign) else [st.target]):
     for tt in _flatten(t):
       if isinstance(tt, ast.Name): _kill(ne, tt.id)
       elif isinstance(tt, ast.Attribute): ne.exact.pop(norm(tt), None)
+      elif isinstance(tt, ast.Subscript): ne.exact.pop(norm(tt.value), None)
   return ne
 
 def _kill (env, nm):
@@ -1062,3 +1088,41 @@ def implies_ge0 (fact, target):
   """does `fact >= 0` imply `target >= 0`?  (same symbolic part, target constant not smaller)"""
   if fact is None or target is None: return False
   return fact[0] == target[0] and target[1] >= fact[1]
+
+
+# ---------------------------------------------------------------------------
+# derived state
+
+def stale_derived_state (repo, cls, modules):
+  """attributes of `cls` that are computed in __init__ from another constructor argument which is also kept as an
+  attribute of its own (`self.P = P; self.X = f(P)`), where some function in `modules` later replaces `.P` on an object
+  without setting `.X`: [(X, P, init_stmt, (module, func, store_stmt))].  The copy X goes stale at that store."""
+  init = cls.methods.get('__init__')
+  if init is None: return []
+  params = set(init.params[1:])
+  primary = {}; derived = []
+  for t, v, st, k in stores_in(init.node, nested=False):
+    if not (isinstance(t, ast.Attribute) and isinstance(t.value, ast.Name) and t.value.id == init.params[0]) or v is None or k != 'assign': continue
+    if isinstance(v, ast.Name) and v.id in params: primary[v.id] = t.attr
+  for t, v, st, k in stores_in(init.node, nested=False):
+    if not (isinstance(t, ast.Attribute) and isinstance(t.value, ast.Name) and t.value.id == init.params[0]) or v is None or k != 'assign': continue
+    if isinstance(v, ast.Name): continue
+    for x in ast.walk(v):
+      src = None
+      if isinstance(x, ast.Name) and x.id in primary: src = primary[x.id]
+      elif isinstance(x, ast.Attribute) and isinstance(x.value, ast.Name) and x.value.id == init.params[0] and x.attr in primary.values(): src = x.attr
+      if src is not None and src != t.attr:
+        derived.append((t.attr, src, st)); break
+  out = []
+  for X, P, ist in derived:
+    for m in modules:
+      fns = list(m.funcs.values()) + [f for c in m.classes.values() for f in c.methods.values()]
+      for f in fns:
+        if f is init: continue
+        sts = [(t, st) for t, v, st, k in stores_in(f.node) if isinstance(t, ast.Attribute) and t.attr == P and k in ('assign', 'augassign')
+               and (f.cls is cls or not (isinstance(t.value, ast.Name) and t.value.id == 'self'))]
+        for t, st in sts:
+          recv = norm(t.value)
+          again = any(isinstance(t2, ast.Attribute) and t2.attr == X and norm(t2.value) == recv for t2, v2, st2, k2 in stores_in(f.node))
+          if not again: out.append((X, P, ist, (m, f, st)))
+  return out
